@@ -84,9 +84,11 @@ theorem getFreeTable_eq (A : Archetype) :
     have ht : A.freeTables.getD (A.freeTables.length - 1) 0 = t := by
       rw [List.getLast?_eq_getElem?] at hfl
       rw [List.getD_eq_getElem?_getD, hfl]; rfl
+    -- the emptiness test, however the source spells it (`len == 0`, `len < 1`)
     have hz : (A.freeTables.length == 0) = false := by
       simp; omega
-    simp only [ofArch, hz, Bool.false_eq_true, if_false, ht, List.dropLast_eq_take]
+    have hz' : ¬ A.freeTables.length < 1 := by omega
+    simp only [ofArch, hz, hz', decide_false, Bool.false_eq_true, if_false, ht, List.dropLast_eq_take]
 
 theorem freeTable_eq (A : Archetype) (T : Table) :
     archetype_FreeTable (ofArch A) (ofTable T) =
